@@ -163,7 +163,8 @@ Qed.
 (* closing                                                                                  *)
 (* ---------------------------------------------------------------------------------------- *)
 
-Lemma fail_eq ps k : fail ps k = (mkp (peer ps) true [], EError k :: map fail_reply (pending ps)).
+Lemma fail_eq c ps k :
+  fail c ps k = (mkp (peer ps) true [], EError k :: map (fail_reply c) (pending ps)).
 Proof. reflexivity. Qed.
 
 Lemma delivered_app a b : delivered (a ++ b) = delivered a ++ delivered b.
@@ -173,16 +174,74 @@ Lemma errors_app a b : errors (a ++ b) = errors a ++ errors b.
 Proof. induction a as [|[]]; simpl; congruence. Qed.
 
 Lemma failed_ids_app a b : failed_ids (a ++ b) = failed_ids a ++ failed_ids b.
-Proof. induction a as [|[m| m | m | | |] a IH]; simpl; try congruence. destruct (mkind m); simpl; congruence. Qed.
+Proof. induction a as [|[m| m | m | m | | |] a IH]; simpl; try congruence. destruct (mkind m); simpl; congruence. Qed.
 
-Lemma delivered_fail_replies l : delivered (map fail_reply l) = [].
-Proof. induction l as [|[id [s d]] l IH]; simpl; auto. Qed.
+Lemma refused_ids_app a b : refused_ids (a ++ b) = refused_ids a ++ refused_ids b.
+Proof. induction a as [|[m| m | m | m | | |] a IH]; simpl; try congruence. destruct (mkind m); simpl; congruence. Qed.
 
-Lemma errors_fail_replies l : errors (map fail_reply l) = [].
-Proof. induction l as [|[id [s d]] l IH]; simpl; auto. Qed.
+Lemma attempted_ids_app a b : attempted_ids (a ++ b) = attempted_ids a ++ attempted_ids b.
+Proof. induction a as [|[m| m | m | m | | |] a IH]; simpl; try congruence; destruct (mkind m); simpl; congruence. Qed.
 
-Lemma failed_ids_fail_replies l : failed_ids (map fail_reply l) = ids l.
-Proof. induction l as [|[id [s d]] l IH]; simpl; [reflexivity | now rewrite IH]. Qed.
+(* an entry of the pending table yields an accepted reply iff its requester is registered *)
+Lemma fail_reply_cases c e :
+  (registered c e = true /\
+   fail_reply c e = EFail (mkmsg (KReply (fst e) true) (snd (snd e)) (fst (snd e)) 0)) \/
+  (registered c e = false /\
+   fail_reply c e = ERefused (mkmsg (KReply (fst e) true) (snd (snd e)) (fst (snd e)) 0)).
+Proof.
+  destruct e as [id [s d]]. unfold registered, fail_reply, local_error. simpl.
+  destruct (mem (snd s) (rejects c)); [right | left]; split; reflexivity.
+Qed.
+
+Lemma delivered_fail_replies c l : delivered (map (fail_reply c) l) = [].
+Proof.
+  induction l as [|e l IH]; simpl; auto.
+  destruct (fail_reply_cases c e) as [[_ ->]|[_ ->]]; simpl; exact IH.
+Qed.
+
+Lemma errors_fail_replies c l : errors (map (fail_reply c) l) = [].
+Proof.
+  induction l as [|e l IH]; simpl; auto.
+  destruct (fail_reply_cases c e) as [[_ ->]|[_ ->]]; simpl; exact IH.
+Qed.
+
+(* every pending id is attempted, in table order ... *)
+Lemma attempted_ids_fail_replies c l : attempted_ids (map (fail_reply c) l) = ids l.
+Proof.
+  induction l as [|e l IH]; simpl; auto.
+  destruct (fail_reply_cases c e) as [[_ ->]|[_ ->]]; simpl; now rewrite IH.
+Qed.
+
+(* ... exactly those whose requester is registered get the error reply, whatever the others do ... *)
+Lemma failed_ids_fail_replies c l :
+  failed_ids (map (fail_reply c) l) = ids (filter (registered c) l).
+Proof.
+  induction l as [|e l IH]; simpl; auto.
+  destruct (fail_reply_cases c e) as [[-> ->]|[-> ->]]; simpl; now rewrite IH.
+Qed.
+
+(* ... and the refused ones are exactly the others *)
+Lemma refused_ids_fail_replies c l :
+  refused_ids (map (fail_reply c) l) = ids (filter (fun e => negb (registered c e)) l).
+Proof.
+  induction l as [|e l IH]; simpl; auto.
+  destruct (fail_reply_cases c e) as [[-> ->]|[-> ->]]; simpl; now rewrite IH.
+Qed.
+
+Lemma no_out_of_fuel_fail_replies c l : ~ In EOutOfFuel (map (fail_reply c) l).
+Proof.
+  rewrite in_map_iff. intros [e [H _]].
+  destruct (fail_reply_cases c e) as [[_ E]|[_ E]]; rewrite E in H; discriminate.
+Qed.
+
+Lemma nodup_ids_filter f (l : list (N * (addr * addr))) : NoDup (ids l) -> NoDup (ids (filter f l)).
+Proof.
+  induction l as [|e l IH]; simpl; intro H; [constructor|].
+  inversion H as [|? ? Hn Hl]; subst. destruct (f e); [|auto].
+  simpl. constructor; [|auto]. intro Hin. apply Hn.
+  unfold ids in *. apply in_map_iff in Hin as [x [Hx Hin]]. apply filter_In in Hin as [Hin _].
+  apply in_map_iff. exists x. auto.
+Qed.
 
 Section WithCodec.
   Variable deser : bytes -> option msg.
@@ -194,6 +253,10 @@ Section WithCodec.
   Notation run_feed := (run_feed deser c).
   Notation process_all := (process_all deser c).
   Notation head_of := (head_of (maxsz c)).
+  Notation fail := (Model.fail c).
+  Notation fail_reply := (Model.fail_reply c).
+  Notation close_p := (Model.close_p c).
+  Notation close_conn := (Model.close_conn c).
 
   (* -------------------------------------------------------------------------------------- *)
   (* drain, one iteration at a time                                                         *)
@@ -250,14 +313,14 @@ Section WithCodec.
     induction f as [|f IH]; intros ps b Hf; [lia|].
     rewrite drain_unfold.
     destruct (head_of b) as [| | | | |p r] eqn:Hh; simpl; try tauto.
-    - rewrite in_map_iff. intros [H|[x [H _]]]; [discriminate|]. destruct x as [id [s d]]; discriminate.
-    - rewrite in_map_iff. intros [H|[x [H _]]]; [discriminate|]. destruct x as [id [s d]]; discriminate.
+    - intros [H|H]; [discriminate | exact (no_out_of_fuel_fail_replies c _ H)].
+    - intros [H|H]; [discriminate | exact (no_out_of_fuel_fail_replies c _ H)].
     - apply head_of_rest_shorter in Hh.
       assert (Hp : ~ In EOutOfFuel (snd (process ps p))).
       { unfold Model.process.
         assert (Hfail : forall k, ~ In EOutOfFuel (snd (fail ps k))).
-        { intro k. rewrite fail_eq. simpl. rewrite in_map_iff.
-          intros [H|[x [H _]]]; [discriminate|]. destruct x as [id [s d]]; discriminate. }
+        { intro k. rewrite fail_eq. simpl.
+          intros [H|H]; [discriminate | exact (no_out_of_fuel_fail_replies c _ H)]. }
         destruct (deser p) as [m|]; [|apply Hfail].
         destruct (peer ps) as [pn|].
         - destruct (mkind m) eqn:Hk; try apply Hfail;
@@ -735,10 +798,29 @@ Section WithCodec.
     let '(s', evs) := close_conn (ps, ([] : bytes)) in
     closed (fst s') = true /\ pending (fst s') = [] /\
     evs = map fail_reply (pending ps) /\
-    failed_ids evs = ids (pending ps) /\ NoDup (failed_ids evs) /\ delivered evs = [].
+    attempted_ids evs = ids (pending ps) /\
+    failed_ids evs = ids (filter (registered c) (pending ps)) /\
+    refused_ids evs = ids (filter (fun e => negb (registered c e)) (pending ps)) /\
+    NoDup (failed_ids evs) /\ delivered evs = [].
   Proof.
-    intros Hopen Hnd. unfold close_conn. rewrite Hopen. simpl.
-    rewrite failed_ids_fail_replies, delivered_fail_replies. repeat split; auto.
+    intros Hopen Hnd. unfold Model.close_conn. rewrite Hopen. simpl.
+    rewrite attempted_ids_fail_replies, failed_ids_fail_replies, refused_ids_fail_replies,
+      delivered_fail_replies.
+    repeat split; auto. apply nodup_ids_filter, Hnd.
+  Qed.
+
+  (* per request: a pending request whose requester is still registered gets its error reply
+     exactly once, no matter which other requesters are gone *)
+  Lemma close_fails_registered ps e :
+    NoDup (ids (pending ps)) -> In e (pending ps) -> registered c e = true ->
+    count_occ N.eq_dec (failed_ids (map fail_reply (pending ps))) (fst e) = 1.
+  Proof.
+    intros Hnd Hin Hreg. rewrite failed_ids_fail_replies.
+    assert (Hnd' : NoDup (ids (filter (registered c) (pending ps)))) by (apply nodup_ids_filter, Hnd).
+    assert (Hin' : In (fst e) (ids (filter (registered c) (pending ps)))).
+    { unfold ids. apply in_map. apply filter_In. auto. }
+    pose proof (proj1 (NoDup_count_occ N.eq_dec _) Hnd' (fst e)) as Hle.
+    pose proof (proj1 (count_occ_In N.eq_dec _ (fst e)) Hin') as Hge. lia.
   Qed.
 
   (* -------------------------------------------------------------------------------------- *)
@@ -747,24 +829,27 @@ Section WithCodec.
 
   Definition Acc (ps : pstate) (E : list event) : Prop :=
     forall id, In id (sent_request_ids E) ->
-      In id (ids (pending ps)) \/ In id (replied_ids E) \/ In id (failed_ids E).
+      In id (ids (pending ps)) \/ In id (replied_ids E) \/ In id (attempted_ids E).
 
   Lemma sent_request_ids_app a b : sent_request_ids (a ++ b) = sent_request_ids a ++ sent_request_ids b.
-  Proof. induction a as [|[m| m | m | | |] a IH]; simpl; try congruence. destruct (mkind m); simpl; congruence. Qed.
+  Proof. induction a as [|[m| m | m | m | | |] a IH]; simpl; try congruence. destruct (mkind m); simpl; congruence. Qed.
 
   Lemma replied_ids_app a b : replied_ids (a ++ b) = replied_ids a ++ replied_ids b.
-  Proof. induction a as [|[m| m | m | | |] a IH]; simpl; try congruence. destruct (mkind m); simpl; congruence. Qed.
+  Proof. induction a as [|[m| m | m | m | | |] a IH]; simpl; try congruence. destruct (mkind m); simpl; congruence. Qed.
 
   Lemma sent_request_ids_fail_replies l : sent_request_ids (map fail_reply l) = [].
-  Proof. induction l as [|[id [s d]] l IH]; simpl; auto. Qed.
+  Proof.
+    induction l as [|e l IH]; simpl; auto.
+    destruct (fail_reply_cases c e) as [[_ ->]|[_ ->]]; simpl; exact IH.
+  Qed.
 
   Lemma Acc_ext ps ps' E ev :
     Acc ps E ->
     (forall id, In id (ids (pending ps)) \/ In id (sent_request_ids ev) ->
-                In id (ids (pending ps')) \/ In id (replied_ids ev) \/ In id (failed_ids ev)) ->
+                In id (ids (pending ps')) \/ In id (replied_ids ev) \/ In id (attempted_ids ev)) ->
     Acc ps' (E ++ ev).
   Proof.
-    intros HA Hl id. rewrite sent_request_ids_app, replied_ids_app, failed_ids_app, !in_app_iff.
+    intros HA Hl id. rewrite sent_request_ids_app, replied_ids_app, attempted_ids_app, !in_app_iff.
     intros [Hin|Hin].
     - destruct (HA id Hin) as [H|[H|H]]; [|tauto|tauto].
       destruct (Hl id (or_introl H)) as [H'|[H'|H']]; tauto.
@@ -775,7 +860,7 @@ Section WithCodec.
   Proof.
     intro HA. apply (Acc_ext ps); [exact HA|]. rewrite fail_eq. cbn [fst snd].
     intros id [H|H].
-    - right; right. cbn [failed_ids]. rewrite failed_ids_fail_replies. exact H.
+    - right; right. cbn [attempted_ids]. rewrite attempted_ids_fail_replies. exact H.
     - cbn [sent_request_ids] in H. rewrite sent_request_ids_fail_replies in H. destruct H.
   Qed.
 
@@ -837,7 +922,7 @@ Section WithCodec.
     destruct (closed ps); [simpl; rewrite app_nil_r; exact HA|].
     apply (Acc_ext ps); [exact HA|]. cbn [fst snd close_p].
     intros id [H|H].
-    - right; right. rewrite failed_ids_fail_replies. exact H.
+    - right; right. rewrite attempted_ids_fail_replies. exact H.
     - rewrite sent_request_ids_fail_replies in H. destruct H.
   Qed.
 
@@ -846,26 +931,28 @@ Section WithCodec.
     intro HA. apply (Acc_ext ps); [exact HA|]. unfold send.
     assert (Hund : forall x, In x (sent_request_ids
                match mkind m with
-               | KRequest id => [EFail (mkmsg (KReply id true) (mdst m) (msrc m) 0)]
+               | KRequest id => [local_error c id (mdst m) (msrc m)]
                | _ => []
-               end) -> False) by (intro x; destruct (mkind m); simpl; tauto).
+               end) -> False)
+      by (intro x; destruct (mkind m); simpl; try tauto; unfold local_error;
+          destruct (mem (snd (msrc m)) (rejects c)); simpl; tauto).
     destruct (closed ps); [cbn [fst snd]; intros x [H|H]; [left; exact H | destruct (Hund x H)]|].
     destruct (mkind m) eqn:Hk.
     - destruct (maxsz c <? sz)%N; cbn [fst snd]; intros x [H|H]; try (left; exact H);
         simpl in H; rewrite ?Hk in H; destruct H.
-    - destruct (peer ps) as [pn|]; [|cbn [fst snd]; intros x [H|H]; [left; exact H | simpl in H; destruct H]].
+    - destruct (peer ps) as [pn|]; [|cbn [fst snd]; intros x [H|H]; [left; exact H | destruct (Hund x H)]].
       destruct (maxsz c <? sz)%N; cbn [fst snd pending].
-      + intros x [H|H]; [left; exact H | simpl in H; destruct H].
+      + intros x [H|H]; [left; exact H | destruct (Hund x H)].
       + intros x [H|H].
         * left. destruct (mem id (ids (pending ps))); [exact H|].
           unfold ids. rewrite map_app, in_app_iff. left; exact H.
         * simpl in H. rewrite Hk in H. simpl in H. destruct H as [<-|[]].
           left. destruct (mem id (ids (pending ps))) eqn:Hm; [apply mem_spec, Hm|].
           unfold ids. rewrite map_app, in_app_iff. right; left; reflexivity.
-    - destruct (peer ps) as [pn|]; [|cbn [fst snd]; intros x [H|H]; [left; exact H | simpl in H; destruct H]].
+    - destruct (peer ps) as [pn|]; [|cbn [fst snd]; intros x [H|H]; [left; exact H | destruct (Hund x H)]].
       destruct (maxsz c <? sz)%N; cbn [fst snd pending]; intros x [H|H]; try (left; exact H);
         simpl in H; rewrite ?Hk in H; destruct H.
-    - destruct (peer ps) as [pn|]; [|cbn [fst snd]; intros x [H|H]; [left; exact H | simpl in H; destruct H]].
+    - destruct (peer ps) as [pn|]; [|cbn [fst snd]; intros x [H|H]; [left; exact H | destruct (Hund x H)]].
       destruct (maxsz c <? sz)%N; cbn [fst snd pending]; intros x [H|H]; try (left; exact H);
         simpl in H; rewrite ?Hk in H; destruct H.
   Qed.
@@ -891,15 +978,24 @@ Section WithCodec.
       cbn [fst snd] in *. rewrite app_assoc. exact IH.
   Qed.
 
+  Lemma attempted_split evs id :
+    In id (attempted_ids evs) -> In id (failed_ids evs) \/ In id (refused_ids evs).
+  Proof.
+    induction evs as [|[m| m | m | m | | |] evs IH]; simpl; try tauto;
+      destruct (mkind m); simpl; tauto.
+  Qed.
+
   Lemma no_request_left ops ps b evs :
     run deser c init ops = ((ps, b), evs) -> closed ps = true ->
-    forall id, In id (sent_request_ids evs) -> In id (replied_ids evs) \/ In id (failed_ids evs).
+    forall id, In id (sent_request_ids evs) ->
+      In id (replied_ids evs) \/ In id (failed_ids evs) \/ In id (refused_ids evs).
   Proof.
     intros Hrun Hcl id Hin.
     assert (HA : Acc (fst init) []) by (intros x []).
     pose proof (Acc_run ops init [] HA) as H. pose proof (run_inv ops init init_inv) as [_ Hp].
     rewrite Hrun in *. cbn [fst snd app] in *.
-    destruct (H id Hin) as [H1|H1]; [|exact H1]. rewrite (Hp Hcl) in H1. destruct H1.
+    destruct (H id Hin) as [H1|[H1|H1]]; [rewrite (Hp Hcl) in H1; destruct H1 | tauto |].
+    right. apply attempted_split, H1.
   Qed.
 
   (* -------------------------------------------------------------------------------------- *)
@@ -943,10 +1039,12 @@ Section WithCodec.
 
   Lemma fail_shape ps k :
     fail ps k = (mkp (peer ps) true [], EError k :: map fail_reply (pending ps)) /\
-    delivered (snd (fail ps k)) = [] /\ failed_ids (snd (fail ps k)) = ids (pending ps).
+    delivered (snd (fail ps k)) = [] /\
+    attempted_ids (snd (fail ps k)) = ids (pending ps) /\
+    failed_ids (snd (fail ps k)) = ids (filter (registered c) (pending ps)).
   Proof.
-    rewrite fail_eq. cbn [snd delivered failed_ids].
-    rewrite delivered_fail_replies, failed_ids_fail_replies. auto.
+    rewrite fail_eq. cbn [snd delivered failed_ids attempted_ids].
+    rewrite delivered_fail_replies, failed_ids_fail_replies, attempted_ids_fail_replies. auto.
   Qed.
 
   Lemma reachable_inv ops :
